@@ -247,7 +247,9 @@ def strip_comments_ws(text):
     """reference removal of comments (// to end of line, /* to the first */)"""
     out, i, n = [], 0, len(text)
     while i < n:
-        if text.startswith("//", i):
+        if text.startswith("/\\", i) or text.startswith("\\/", i):
+            out.append(text[i:i + 2]); i += 2       # the shift arrows are tokens: their '/' does not open a comment
+        elif text.startswith("//", i):
             j = text.find("\n", i)
             i = n if j < 0 else j
         elif text.startswith("/*", i):
@@ -257,6 +259,23 @@ def strip_comments_ws(text):
         else:
             out.append(text[i]); i += 1
     return "".join(out)
+
+
+def lexeme_loss(w, cal, text):
+    """conservation of characters (C12: nothing but white space and comments is ignored): the lexemes of the real token stream, concatenated,
+    must spell the text without its white space and comments.  Returns None when they do, else what the tokens spell from the first difference on."""
+    r = w.call({"op": "lex", "text": text})
+    if "tokens" not in r:
+        return None          # (does not return: C11's concern)
+    fixed = {"UP_ARROW": "/\\", "DOWN_ARROW": "\\/"}
+    spelled = "".join(fixed.get(cal.get(int(c), ""), v) for c, v in (r["tokens"] or []))
+    want = re.sub(r"\s+", "", strip_comments_ws(text))
+    if spelled == want:
+        return None
+    k = 0
+    while k < min(len(spelled), len(want)) and spelled[k] == want[k]:
+        k += 1
+    return spelled[max(0, k - 3):] or "(nothing)"
 
 
 DECL = re.compile(r"(?<![A-Za-z0-9_'])(type|let|prc|exec|assuming)(?![A-Za-z0-9_'])")
@@ -335,7 +354,7 @@ def c12():
         cal = calibrate(w) or {}
         # (1) lexical level: the lexemes of the real token stream are the input minus white space and comments (NoSilentLoss),
         #     and an out-of-alphabet character is never the silent end of the stream
-        lexchecks = silent = 0
+        lexchecks = silent = conserved = 0
         for d in pairs:
             data, singles = concretize(d["tape"], rng, canonical=True)
             exp, illegal = expected_tokens(d["toks"], singles)
@@ -345,6 +364,12 @@ def c12():
                 silent += 1
                 v.violation("a text with a character outside the language is accepted: %r" % data, {"input_b64": b64(data), "tape": d["tape"]},
                             {"kind": "alien-accepted"})
+            if not illegal:
+                lost = lexeme_loss(w, cal, data.decode("utf-8", "replace"))
+                conserved += 1
+                if lost:
+                    v.violation("the scanner does not hand every character of %r to the parser: its tokens spell %r" % (data, lost), {"input_b64": b64(data), "tape": d["tape"]},
+                                {"kind": "lexeme-loss"})
         # (2) grammatical texts: accepted, with exactly the declarations written in them, under re-layout with tricky comments
         texts = repo_texts()
         good = []
@@ -360,6 +385,11 @@ def c12():
                 if rp.get("parse") != "ok":
                     v.violation("re-laid-out copy of %s is rejected: %s" % (name, str(rp.get("parse") or rp)[:150]), {"text": t, "source": name}, {"kind": "layout-reject"})
                     continue
+                lost = lexeme_loss(w, cal, t)
+                conserved += 1
+                if lost:
+                    v.violation("the scanner does not hand every character of a copy of %s to the parser (first difference near %r)" % (name, lost[:60]), {"text": t, "source": name},
+                                {"kind": "lexeme-loss"})
                 c, names = declared(t)
                 decl_checked += 1
                 got = (rp.get("ntypes"), rp.get("nfuncs"), rp.get("nprocs"), rp.get("nassumed") and 1 or 0)
@@ -397,7 +427,7 @@ def c12():
                "tapes_enumerated": len(pairs), "grammatical_texts": len(good), "relayout_variants_with_declaration_check": decl_checked,
                "insertions_tried": ins, "insertions_accepted": acc, "exhaustive": False}
         vlib.write_evidence("C12", "model_checking", cov, time.time() - t0, len(v.violations),
-                            ["lexical level specified by Scanner.tla (NoSilentEnd, every tape up to the bound); the grammar itself is exercised through the repository's and the corpus' programs, not specified",
+                            ["lexical level specified by Scanner.tla (NoSilentEnd, every tape up to the bound); character conservation of the real token stream on every tape without an alien character and on every re-laid-out program; the grammar itself is exercised through the repository's and the corpus' programs, not specified",
                              "declarations written in a text are counted by an independent comment-aware scan for the reserved words type/let/prc/exec/assuming"])
     return v.finish()
 
